@@ -1,0 +1,113 @@
+//! Simulation seams and read-only accessors for the external verification harness.
+//! Compiled only with `--cfg inkayaku_verif`. With no simulator installed every hook
+//! falls back to the shipped behaviour.
+
+use std::sync::{Arc, RwLock};
+use std::sync::atomic::{AtomicU64, AtomicUsize, Ordering};
+use std::time::SystemTime;
+
+use inkayaku_board::Bitboard;
+use inkayaku_uci::Score;
+
+use super::heuristic::Heuristic;
+use super::heuristic::simple::SimpleHeuristic;
+use super::search::EngineOptions;
+use super::zobrist_history::ZobristHistory;
+
+pub use super::table::verif_handle::TableHandle;
+
+pub trait SimHooks: Send + Sync {
+    /// Wall clock as seen by the search thread; `nodes` = negamax nodes of the current search.
+    fn now(&self, nodes: u64) -> SystemTime;
+    /// Called on the search thread right before it looks at its command channel during a search.
+    fn on_poll(&self, nodes: u64, ply: usize, iteration: usize);
+    /// Called on the search thread right before it blocks waiting for the next command.
+    fn idle_enter(&self, bitboard: &Bitboard);
+    /// Called on the search thread right after a command was received while idle.
+    fn idle_exit(&self);
+    /// Called on the caller thread after `quit` was sent and before the search thread is joined.
+    fn before_join(&self);
+}
+
+static HOOKS: RwLock<Option<Arc<dyn SimHooks>>> = RwLock::new(None);
+static POLL_INTERVAL: AtomicU64 = AtomicU64::new(100_000);
+static TT_CAPACITY: AtomicUsize = AtomicUsize::new(0);
+
+fn hooks() -> Option<Arc<dyn SimHooks>> {
+    HOOKS.read().ok().and_then(|g| g.clone())
+}
+
+pub fn install(hooks: Arc<dyn SimHooks>) {
+    if let Ok(mut g) = HOOKS.write() {
+        *g = Some(hooks);
+    }
+}
+
+pub fn uninstall() {
+    if let Ok(mut g) = HOOKS.write() {
+        *g = None;
+    }
+}
+
+pub fn set_poll_interval(nodes: u64) { POLL_INTERVAL.store(nodes, Ordering::SeqCst); }
+
+pub fn set_tt_capacity(capacity: usize) { TT_CAPACITY.store(capacity, Ordering::SeqCst); }
+
+#[inline(always)]
+pub fn poll_interval() -> u64 { POLL_INTERVAL.load(Ordering::Relaxed) }
+
+pub fn tt_capacity_override() -> Option<usize> {
+    match TT_CAPACITY.load(Ordering::SeqCst) {
+        0 => None,
+        c => Some(c),
+    }
+}
+
+pub fn now(nodes: u64) -> SystemTime { hooks().map_or_else(SystemTime::now, |h| h.now(nodes)) }
+
+pub fn on_poll(nodes: u64, ply: usize, iteration: usize) {
+    if let Some(h) = hooks() { h.on_poll(nodes, ply, iteration); }
+}
+
+pub fn idle_enter(bitboard: &Bitboard) {
+    if let Some(h) = hooks() { h.idle_enter(bitboard); }
+}
+
+pub fn idle_exit() {
+    if let Some(h) = hooks() { h.idle_exit(); }
+}
+
+pub fn before_join() {
+    if let Some(h) = hooks() { h.before_join(); }
+}
+
+// ---------------------------------------------------------------- read-only accessors
+
+/// The exact static evaluation the search uses (white-centric).
+pub fn static_eval(bitboard: &Bitboard, legal_moves_remaining: bool) -> i32 { SimpleHeuristic.evaluate(bitboard, 0, legal_moves_remaining) }
+
+pub fn evaluate_ongoing(bitboard: &Bitboard) -> i32 { SimpleHeuristic.evaluate_ongoing(bitboard, 0) }
+
+pub fn score_from_value(value: i32, bitboard: &Bitboard) -> Score { SimpleHeuristic.score_from_value(value, bitboard) }
+
+pub fn win_score() -> i32 { SimpleHeuristic.win_score() }
+
+pub fn draw_score() -> i32 { SimpleHeuristic.draw_score() }
+
+pub fn is_checkmate_value(value: i32) -> bool { SimpleHeuristic.is_checkmate(value) }
+
+pub fn max_half_moves() -> u32 { <SimpleHeuristic as Heuristic>::MAX_HALF_MOVES }
+
+pub fn default_contempt() -> i32 { EngineOptions::default().contempt_factor }
+
+pub struct RepetitionHandle(Box<ZobristHistory>);
+
+impl Default for RepetitionHandle {
+    fn default() -> Self { Self(Box::default()) }
+}
+
+impl RepetitionHandle {
+    pub fn set(&mut self, index: u16, zobrist_hash: u64) { self.0.set(index, zobrist_hash); }
+
+    pub fn count_repetitions(&self, start_index: u16, halfmove_clock: u16) -> usize { self.0.count_repetitions(start_index, halfmove_clock) }
+}
